@@ -598,6 +598,8 @@ func (g *Gen) sliceOp(st *State, x *ssa.Slice) {
 		g.safety(st, "slice", x.Pos(), fmt.Sprintf("(and (<= 0 %s) (<= %s %s) (<= %s %s))", lo, lo, hi, hi, sl))
 		r := fmt.Sprintf("(%s %s %s %s)", g.uf("substr", 3, "Int"), a.T, lo, hi)
 		g.assume(st, fmt.Sprintf("(and (= (%s %s) (- %s %s)) (= (= %s 0) (= %s %s)))", g.uf("strlen", 1, "Int"), r, hi, lo, r, hi, lo))
+		sb := g.uf("strbyte", 2, "Int")
+		g.assume(st, fmt.Sprintf("(forall ((k!ss Int)) (! (=> (and (<= 0 k!ss) (< k!ss (- %s %s))) (= (%s %s k!ss) (%s %s (+ %s k!ss)))) :pattern ((%s %s k!ss))))", hi, lo, sb, r, sb, a.T, lo, sb, r))
 		g.regs[x] = Val{T: r, Kind: "int"}
 		return
 	}
@@ -724,7 +726,24 @@ func (g *Gen) next(st *State, x *ssa.Next) {
 	if x.IsString && it.Elem.Kind == "str" {
 		// One step of a string iteration at byte index i (hidden iterator state): yields (ok, i, r)
 		// with r = the byte itself for ASCII and some rune >= 0x80 otherwise; advances by 1..4 bytes.
-		panic(oos("range over string (not modelled yet)"))
+		sv := *it.Elem
+		key := "$it:" + x.Iter.Name()
+		pos, has := st.ghost[key]
+		if !has {
+			pos = intV("0")
+		}
+		ln := sv.Len
+		g.assume(st, fmt.Sprintf("(and (<= 0 %s) (<= %s %s))", pos.T, pos.T, ln)) // iterator invariant
+		ok := g.def("next_ok", "Bool", fmt.Sprintf("(< %s %s)", pos.T, ln))
+		b := fmt.Sprintf("(select %s (+ %s %s))", sv.T, sv.Off, pos.T)
+		r := g.newSym("next_rune", "Int")
+		np := g.newSym("next_pos", "Int")
+		g.assume(st, fmt.Sprintf("(=> %s (and (<= 0 %s) (<= %s 255) (ite (< %s 128) (and (= %s %s) (= %s (+ %s 1))) (and (<= 128 %s) (<= %s 1114111) (< %s %s) (<= %s (+ %s 4)) (<= %s %s)))))", ok, b, b, b, r, b, np, pos.T, r, r, pos.T, np, np, pos.T, np, ln))
+		g.assume(st, fmt.Sprintf("(=> (not %s) (= %s %s))", ok, np, pos.T))
+		st.ghost[key] = intV(np)
+		g.trustedUsed["range over a string: yields byte index and rune; an ASCII byte is its own rune and advances by one, any other position yields a rune >= 0x80 and advances by 1..4 bytes (UTF-8 decoding, invalid bytes give U+FFFD)"] = true
+		g.regs[x] = Val{Kind: "tuple", Tup: []Val{{Kind: "bool", T: ok}, pos, intV(r)}}
+		return
 	}
 	panic(oos("range over " + it.Elem.Kind))
 }
